@@ -93,11 +93,12 @@ func digestChecks(r *common.Run) {
 						r.Violation(d.name+"[[]byte]|input-modified|data", fmt.Sprintf("hashz.%s changed its %d-byte input", d.name, l), in(), "")
 						copy(data, orig)
 					}
-					for i, form := range []string{"[[]byte]", "[string]", "ToString[[]byte]", "ToString[string]"} {
-						if g[i] != want {
-							r.Violation(d.name+form+"|wrong-digest|data", fmt.Sprintf("hashz.%s%s of %d bytes (pattern %d) = %q, want %q", d.name, form, l, p, g[i], want), in(),
-								fmt.Sprintf("func TestReplay(t *testing.T) { in := make([]byte, %d); if g := hashz.%sToString(in); g != %q { t.Fatal(g) } } // fill in with pattern %d: see harness pattern()", l, d.name, want, p))
-						}
+					if g[1] != g[0] || g[2] != g[0] || g[3] != g[0] {
+						r.Violation(d.name+"|forms-disagree|data", fmt.Sprintf("hashz.%s of %d bytes (pattern %d): []byte form %q, string form %q, ToString([]byte) %q, ToString(string) %q", d.name, l, p, g[0], g[1], g[2], g[3]), in(), "")
+					}
+					if g[0] != want {
+						r.Violation(d.name+"|wrong-digest|data", fmt.Sprintf("hashz.%s of %d bytes (pattern %d) = %q, want %q", d.name, l, p, g[0], want), in(),
+							fmt.Sprintf("func TestReplay(t *testing.T) { in := make([]byte, %d); if g := hashz.%sToString(in); g != %q { t.Fatal(g) } } // fill in with pattern %d: see harness pattern()", l, d.name, want, p))
 					}
 				}
 			}
@@ -156,15 +157,22 @@ func hmacChecks(r *common.Run) {
 							continue
 						}
 						if string(key) != ks || string(data) != ds {
-							r.Violation("Hmac|input-modified|"+h.name, fmt.Sprintf("hashz.Hmac changed its key or data (key %d bytes, data %d bytes)", kl, dl), in(), "")
+							r.Violation("Hmac|input-modified|key-or-data", fmt.Sprintf("hashz.Hmac changed its key or data (key %d bytes, data %d bytes)", kl, dl), in(), "")
 							copy(key, ks)
 							copy(data, ds)
 						}
-						for i, form := range []string{"Hmac[[]byte,[]byte]", "Hmac[string,[]byte]", "Hmac[[]byte,string]", "Hmac[string,string]",
-							"HmacToString[[]byte,[]byte]", "HmacToString[string,[]byte]", "HmacToString[[]byte,string]", "HmacToString[string,string]"} {
-							if g[i] != want {
-								r.Violation(form+"|wrong-mac|"+h.name, fmt.Sprintf("hashz.%s with %s, key of %d bytes, data of %d bytes = %q, want %q", form, h.name, kl, dl, g[i], want), in(), "")
+						cls := "key-within-block"
+						if kl > h.newH().BlockSize() {
+							cls = "key-longer-than-block"
+						}
+						for i := 1; i < 8; i++ {
+							if g[i] != g[0] {
+								r.Violation("Hmac|forms-disagree|"+cls, fmt.Sprintf("hashz.Hmac / HmacToString with %s, key of %d bytes, data of %d bytes: the 8 string/[]byte forms give %q", h.name, kl, dl, g), in(), "")
+								break
 							}
+						}
+						if g[0] != want {
+							r.Violation("Hmac|wrong-mac|"+cls, fmt.Sprintf("hashz.Hmac with %s, key of %d bytes, data of %d bytes = %q, want %q", h.name, kl, dl, g[0], want), in(), "")
 						}
 					}
 				}
@@ -332,7 +340,7 @@ func streamChecks(r *common.Run) {
 			streams = append(streams, d)
 		}
 	}
-	runScript := func(d digestFn, data []byte, want string, p int, steps []step, dev, kinds int) {
+	runScript := func(d digestFn, data []byte, want string, p int, steps []step, dev, kinds int, plainBad *bool) {
 		rd := &scriptReader{data: data, steps: append([]step(nil), steps...)}
 		var got []byte
 		var err error
@@ -350,7 +358,15 @@ func streamChecks(r *common.Run) {
 		if !guarded(r, "hashz."+d.name+"Stream", in, func() { got, err = d.stream(src) }) {
 			return
 		}
+		// the all-default script comes first; if it already fails, the chunking is not the cause
+		// and the later scripts of this (function, data) are counted under the same signature
 		cls := scriptClass(kinds)
+		if *plainBad {
+			cls = scriptClass(0)
+		}
+		if dev == 0 && (err != nil || string(got) != want) {
+			*plainBad = true
+		}
 		if err != nil {
 			r.Violation(d.name+"Stream|unexpected-error|"+cls, fmt.Sprintf("hashz.%sStream returned error %v for an error-free reader delivering %d bytes as %v", d.name, err, len(data), steps), in(), "")
 			return
@@ -376,13 +392,14 @@ func streamChecks(r *common.Run) {
 				for i, d := range streams {
 					wants[i] = oracleSum(d.newH, data)
 				}
+				plainBad := make([]bool, len(streams))
 				genScripts(l, maxDev, func(steps []step, dev, kinds int) {
 					for i, d := range streams {
 						e++
 						if dev > 0 {
 							n++
 						}
-						runScript(d, data, wants[i], p, steps, dev, kinds)
+						runScript(d, data, wants[i], p, steps, dev, kinds, &plainBad[i])
 					}
 				})
 				if string(data) != string(pattern(p, l)) {
@@ -415,7 +432,7 @@ func streamChecks(r *common.Run) {
 				genCompositions(l, maxDev, func(steps []step, dev, kinds int) {
 					for i, d := range streams {
 						e++
-						runScript(d, data, wants[i], 0, steps, dev, kinds)
+						runScript(d, data, wants[i], 0, steps, dev, kinds, new(bool))
 					}
 				})
 				mu.Lock()
